@@ -15,6 +15,7 @@ request                                                          reply
 `exact0 <stype> Q dT x…`                                         `y…`      (rigid oscillator, wn = 0, closed form)
 `steady <stype> Q dT wn c x…`                                    `y…`      (closed form started in steady state under c)
 `xcol <stype> <ic> <peak> <time> <eqsine> Q sr <nf> f… f x…`     `pk h…` or `none`  (filter-free specification exactCol)
+`xcol0 <stype> <ic> <peak> <time> <eqsine> Q sr <nf> f… x…`      `pk h…` or `none`  (0 Hz specification exactCol0)
 `resid <stype> Q sr <nf> f… f x…`                                `h…`      (closed-form free decay after the record, ic = zero)
 `idx <roll> <time> ppc sr <nf> f… n`                             `sr' M N S first count` or `none`
 `rolled <stype> <ic> <peak> <time> <eqsine> <roll> ppc Q sr <nf> f… f <n> x… up…`   `pk h…` or `none`
@@ -133,6 +134,14 @@ def answer (line : String) : String :=
             | some (h, p) => pure (fmtFs (p :: h))
             | none => pure "none"
         | [] => none
+    | "xcol0" :: st :: ic :: pk :: tm :: es :: q :: sr :: nf :: rest => do
+        let st ← parseSType st; let ic ← parseIc ic; let pk ← parsePeak pk; let tm ← parseTime tm
+        let q ← parseF q; let sr ← parseF sr; let nf ← nf.toNat?
+        let fs ← parseFs (rest.take nf)
+        let xs ← parseFs (rest.drop nf)
+        match exactCol0 ⟨st, ic, pk, tm, es == "1"⟩ q sr fs xs with
+        | some (h, p) => pure (fmtFs (p :: h))
+        | none => pure "none"
     | "resid" :: st :: q :: sr :: nf :: rest => do
         let st ← parseSType st; let q ← parseF q; let sr ← parseF sr; let nf ← nf.toNat?
         let fs ← parseFs (rest.take nf)
